@@ -27,7 +27,8 @@ from vf import c08_model as M
 # Ground truth for the causal signature of the Greedy defect: did a
 # `Circuit.surround(point, n, bounding_region)` call return a region that is
 # not inside the bounding region it was given?
-_PROBE = {'surround_calls': 0, 'surround_bounded': 0, 'surround_escaped': 0}
+_PROBE = {'surround_calls': 0, 'surround_bounded': 0, 'surround_escaped': 0,
+          'greedy_region_cycle': 0}
 _ORIG_SURROUND = Circuit.surround
 
 
@@ -45,9 +46,59 @@ def _surround_probe(self: Circuit, point: Any, num_qudits: int,
     return res
 
 
+def _region_cycle(regions: list) -> bool:
+    """Ground truth for the causal signature of the second Greedy defect: do
+    the regions handed to `GreedyPartitioner.topo_sort` admit an order at
+    all?  A -> B when A lies before B on some shared qudit; a cycle (already
+    two regions that interleave: A before B on one qudit, B before A on
+    another) means no sequence of blocks can reproduce the program."""
+    n = len(regions)
+    adj: list[set] = [set() for _ in range(n)]
+    for i, a in enumerate(regions):
+        for j, b in enumerate(regions):
+            if i == j:
+                continue
+            for q in set(a.keys()) & set(b.keys()):
+                if a[q][1] < b[q][0]:
+                    adj[i].add(j)
+                    break
+    state = [0] * n
+    for root in range(n):
+        if state[root]:
+            continue
+        stack = [(root, iter(adj[root]))]
+        state[root] = 1
+        while stack:
+            v, it_ = stack[-1]
+            for w in it_:
+                if state[w] == 1:
+                    return True
+                if state[w] == 0:
+                    state[w] = 1
+                    stack.append((w, iter(adj[w])))
+                    break
+            else:
+                state[v] = 2
+                stack.pop()
+    return False
+
+
+_ORIG_TOPO: Any = None
+
+
+def _topo_probe(self: Any, regions: list) -> list:
+    _PROBE['greedy_region_cycle'] = int(_region_cycle(list(regions)))
+    return _ORIG_TOPO(self, regions)
+
+
 def install_probes() -> None:
+    global _ORIG_TOPO
     if Circuit.surround is not _surround_probe:
         Circuit.surround = _surround_probe  # type: ignore
+    from bqskit.passes.partitioning.greedy import GreedyPartitioner
+    if GreedyPartitioner.topo_sort is not _topo_probe:
+        _ORIG_TOPO = GreedyPartitioner.topo_sort
+        GreedyPartitioner.topo_sort = _topo_probe  # type: ignore
     # Workflow.run re-seeds before every pass when PassData.seed is set;
     # seed_random_sources() looks libc up with ldconfig (a subprocess, ~80 ms)
     # every time.  Memoise the lookup: same behaviour, 100x cheaper.
@@ -100,6 +151,7 @@ def finish_case(n: int, ops: list, stages: list, st: tuple,
     pname, bs, circ, ref, ref_tl, maxw, out, flags = st
     flags['surround_bounded'] = _PROBE['surround_bounded']
     flags['surround_escaped'] = _PROBE['surround_escaped']
+    flags['greedy_region_cycle'] = _PROBE['greedy_region_cycle']
     desc = f'{pname}(block_size={bs}) on {n} qudits: {M.describe(ops)}'
     if exc is not None:
         msg = f'{type(exc).__name__}: {exc}'
@@ -115,6 +167,13 @@ def finish_case(n: int, ops: list, stages: list, st: tuple,
             return 'raised', [(
                 f'{who}-blocksize-exceeds-width-fold-region-off-by-one',
                 f'{desc}: {msg.strip().splitlines()[-1]}',
+            )], flags
+        if 'greedy' in pname and flags['greedy_region_cycle'] \
+                and 'topologically sort' in msg:
+            return 'raised', [(
+                'greedy-selects-regions-that-admit-no-order',
+                f'{desc}: {msg.strip().splitlines()[-1]} (the regions it '
+                'selected depend on each other cyclically)',
             )], flags
         return 'raised', [(
             f'{pname}-raises-{type(exc).__name__}-{_slug(str(exc))}',
@@ -181,6 +240,9 @@ def finish_case(n: int, ops: list, stages: list, st: tuple,
         sig = f'{pname}-{kind}'
         if 'greedy' in pname and flags['surround_escaped']:
             sig = 'greedy-overlapping-regions-surround-ignores-bounding-region'
+        elif 'greedy' in pname and flags['greedy_region_cycle'] \
+                and kind == 'reorders-operations':
+            sig = 'greedy-selects-regions-that-admit-no-order'
         q = next(i for i in range(n) if tl[i] != ref_tl[i])
         fails.append((
             sig,
